@@ -47,6 +47,9 @@ string pending_connect;
 string take_connect () { string c; c = pending_connect; pending_connect = 0; return c; }
 string *preloads = ({ });
 string *take_preloads () { string *p; p = preloads; preloads = ({ }); return p; }
+int reloading_master;
+int reloading () { return reloading_master; }
+void set_reloading (int x) { reloading_master = x; }
 object driven;      // the object whose scheduled op the coming backend tick runs
 // after the tick: an object that destructed itself could not print its snapshot
 int driven_set;
